@@ -263,7 +263,7 @@ class C11(Check):
             'ioctl, a word in the image of _IOC).')
     assumptions = ('Darwin values: mc/darwin.py transcription (trusted base)', 'declared names: frozen copy of the enums at the pinned commit',
                    'leniency: access-mode value 3 (O_ACCMODE, a mask) and undefined S_IFMT values (incl. obsolete S_IFWHT) are not '
-                   'demanded; a zero-valued name (F_OK, AST_NONE, VM_PROT_NONE) may be shown whenever no declared bit is set',
+                   'demanded; a zero-valued name (F_OK, AST_NONE, VM_PROT_NONE) may be shown whenever no declared bit is set (the pinned tree itself prints F_OK for access(path, 0x8); the statement speaks of names of SET bits only)',
                    'not all 2^32 ioctl words: the four fields are extracted by independent mask/shift pairs and every value of '
                    'every field and field boundary is covered by the two half-word sweeps')
 
